@@ -91,6 +91,8 @@ pub struct RunState {
     pub log_loud: bool,
     /// Lines logged outside of any span from inside callbacks.
     pub helper_logs: u64,
+    /// Lines logged through the `log` crate's macros.
+    pub log_facade_lines: u64,
     pub log_ctr: u64,
     pub deferred: Vec<Deferred>,
     /// Set while a deferred emission runs: the ids logged then go to `late_ids`.
@@ -310,7 +312,16 @@ fn emit_logs(idx: usize, n: u16) {
                     tracing::info!(parent: None, "OUT:helper of {id}");
                 }
             }
-            if n % 5 == 0 {
+            // every 7th line comes through the `log` facade, as the lines of most third-party crates do
+            // (`init_tracing()` installs the bridge that turns them into events of the current span)
+            if n % 7 == 3 {
+                with_rs(|rs| rs.log_facade_lines += 1);
+                if loud {
+                    log::warn!("{id}{tail}");
+                } else {
+                    log::info!("{id}{tail}");
+                }
+            } else if n % 5 == 0 {
                 let here = tracing::Span::current();
                 let detached = tracing::error_span!(parent: None, "detached");
                 detached.in_scope(|| if loud { tracing::warn!(parent: &here, "{id}{tail}") } else { tracing::info!(parent: &here, "{id}{tail}") });
